@@ -395,3 +395,17 @@ func (v Value) VerifMapKeys() []string {
 	}
 	return nil
 }
+
+// ---------------------------------------------------------------- slices
+
+// VerifSliceCap returns the capacity of a script slice's backing Go slice (-1 if not a slice,
+// 0 for a nil slice).
+func (v Value) VerifSliceCap() int {
+	if s, ok := v.value.(*sliceT); ok {
+		return cap(s.data)
+	}
+	if v.t.base() == TypeSlice {
+		return 0
+	}
+	return -1
+}
